@@ -278,6 +278,23 @@ theorem writesOk_iff (t : List Entry) :
       simpa using h en hen e he f hk
     · rfl
 
+theorem strictOk_iff (t : List Entry) :
+    strictOk t = true ↔ ∀ en ∈ t, ∀ e ∈ en.events, ∀ f w, e.kind = Kind.acc f w → f ∈ strictFields →
+      strictAccOk en e f = true := by
+  simp only [strictOk, List.all_eq_true]
+  constructor
+  · intro h en hen e he f w hk hf
+    have := h en hen e he
+    rw [hk] at this
+    simpa [hf] using this
+  · intro h en hen e he
+    split
+    · rename_i f w hk
+      by_cases hf : f ∈ strictFields
+      · simpa [hf] using h en hen e he f w hk hf
+      · simp [hf]
+    · rfl
+
 theorem blockingOk_iff (t : List Entry) :
     blockingOk t = true ↔ ∀ en ∈ t, ∀ e ∈ en.events, (e.kind = Kind.join ∨ e.kind = Kind.wait) → effMay en e = [] := by
   simp only [blockingOk, List.all_eq_true]
